@@ -1,19 +1,21 @@
 #!/bin/sh
-# evaluate round-3 seeded changes one property at a time, as the sub-agents finish (never two seedevals at once)
+# evaluation lane for one round of seeded changes: usage seedqueue.sh <round> <props in the order this lane prefers>; touch work/seedeval/R<round>C<nn>.agentdone when the sub-agent has finished; a tag is claimed atomically by mkdir
 cd /verif
+round=$1; shift
 while :; do
   pending=0
-  for p in 01 02 03 04 05 06 07 08 09 10 11 12 13 14 15 16 17 18 19 20; do
-    tag=R3C$p
-    [ -f work/seedeval/$tag.done ] && continue
+  for p in "$@"; do
+    tag=R${round}C$p
+    [ -f work/seedeval/$tag.fin ] && continue
+    [ -d work/seedeval/$tag.lock ] && { [ -f work/seedeval/$tag.fin ] || pending=1; continue; }
     pending=1
-    if [ -f /tmp/mut/$tag/OUT/m3/meta.json ] && [ -f /tmp/mut/$tag/OUT/m1/meta.json ] && [ -f /tmp/mut/$tag/OUT/m2/meta.json ]; then
-      sleep 60     # let the agent finish restoring its tree
-      case $p in 11) also=C09,C02;; 15) also=C02,C09,C04;; 14) also=C02;; *) also=;; esac
+    if [ -f /tmp/mut/$tag/OUT/m3/meta.json ] && [ -f /tmp/mut/$tag/OUT/m1/meta.json ] && [ -f /tmp/mut/$tag/OUT/m2/meta.json ] && [ -f work/seedeval/$tag.agentdone ]; then
+      mkdir work/seedeval/$tag.lock 2>/dev/null || continue
+      case $p in 11) also=C09,C02,C05;; 15) also=C02,C09,C04,C10;; 14) also=C02;; *) also=;; esac
       ALSO=$also python3 lib/seedeval.py $tag > work/seedeval/$tag.log 2>&1
-      touch work/seedeval/$tag.done
+      touch work/seedeval/$tag.fin
     fi
   done
   [ $pending = 0 ] && break
-  sleep 30
+  sleep 20
 done
